@@ -47,3 +47,58 @@ def twin(i1: bool, i2: bool, i3: bool, e1: bool, e2: bool, e3: bool, ni: int, ne
     post: not _
     """
     return law(i1, i2, i3, e1, e2, e3, ni, ne, empty, exclude_none)
+
+
+# ---- the file-system evaluation (_match_real): every inclusion and every exclusion sees the same, normalised name ----------------
+
+import os as _os
+
+_ROOT = _os.path.dirname(_os.path.dirname(_os.path.abspath(__file__)))          # /verif: 'harness' is a directory, 'check' a file
+_NAMES = ['harness', 'harness/', 'check', 'no-such-entry']
+
+
+class _M:
+    def groups(self):
+        return ()
+
+
+class _PR:
+    """Stands for a compiled regex whose verdict depends (only) on whether the name it is shown carries a trailing separator."""
+
+    def __init__(self, with_sep: bool, without_sep: bool):
+        self.with_sep = with_sep
+        self.without_sep = without_sep
+        self.pattern = 'stub'
+
+    def fullmatch(self, s):
+        v = self.with_sep if s.endswith('/') else self.without_sep
+        return _M() if v else None
+
+    def verdict(self, shown):
+        return self.with_sep if shown.endswith('/') else self.without_sep
+
+
+def law_real(is1: bool, in1: bool, is2: bool, in2: bool, es1: bool, en1: bool, es2: bool, en2: bool, ni: int, ne: int, which: int, follow: bool) -> bool:
+    """
+    pre: 1 <= ni <= 2 and 0 <= ne <= 2 and 0 <= which <= 3
+    post: _
+    """
+    inc = [_PR(is1, in1), _PR(is2, in2)][:ni]
+    exc = [_PR(es1, en1), _PR(es2, en2)][:ne]
+    name = _NAMES[which]
+    if which == 3:
+        want = False                                   # REALPATH: a name that does not exist never matches
+    else:
+        shown = 'harness/' if which in (0, 1) else name        # a directory is matched with its trailing separator, spelled or not
+        want = any(p.verdict(shown) for p in inc) and not any(p.verdict(shown) for p in exc)
+    got = M._Match(name, tuple(inc), tuple(exc) if exc else None, True, True, follow).match(root_dir=_ROOT)
+    return got == want
+
+
+def twin_real(is1: bool, in1: bool, is2: bool, in2: bool, es1: bool, en1: bool, es2: bool, en2: bool, ni: int, ne: int, which: int, follow: bool) -> bool:
+    """
+    Reachability twin: must be refuted.
+    pre: 1 <= ni <= 2 and 0 <= ne <= 2 and 0 <= which <= 3
+    post: not _
+    """
+    return law_real(is1, in1, is2, in2, es1, en1, es2, en2, ni, ne, which, follow)
